@@ -70,7 +70,7 @@ Aggregator = collections.namedtuple('Aggregator',
                                     ['func', 'finaliser', 'dataType', 'copyProperties'])
 AGGREGATORS = {
     'sum': Aggregator(lambda curr, new:
-                      new + curr if curr is not None else new,
+                      curr + new if curr is not None else new,
                       identity,
                       None,
                       False),
